@@ -6,12 +6,14 @@ CONSTANTS
   XtModes = {"cell", "text", "none"}
   IoPx = {TRUE, FALSE}
   Ops = {"cell"}
+  Faults = {"kbd", "exc"}
   Variant = "code"
 INVARIANT TypeOK
 INVARIANT CellFresh
 INVARIANT RatioFresh
 INVARIANT FixedSnapshot
 INVARIANT MemoFresh
+INVARIANT FaultFresh
 INVARIANT BodyOnce
 VIEW View
 CHECK_DEADLOCK FALSE
